@@ -1,3 +1,192 @@
-(* C20 — placeholder while the correspondence is brought up *)
-From Coq Require Import List NArith Bool.
-From FS Require Import Sx Model.Varint Model.Codec.
+(* C20 — Wire encoding and framing: the VT codec of types.Stat / types.Packet round-trips, the
+   length-prefixed byte stream is read back identical under every fragmentation, the chunked
+   metadata buffer is the concatenation of its records.
+   This file contains only the property theorems (closed by [exact]) and their
+   [Print Assumptions]; models are in Model/, proofs in Proofs/. *)
+From Coq Require Import List NArith Bool Permutation.
+From FS Require Import Sx Model.Stat Model.Varint Model.Codec Model.Framing Model.MetaBuffer
+  Proofs.VarintP Proofs.CodecP Proofs.FramingP.
+From FSGen Require FromSource.
+Import ListNotations.
+Open Scope N_scope.
+
+(* ---- codec ---------------------------------------------------------------------------- *)
+
+(* Every well-formed Stat (field ranges of the Go types, map = distinct keys) encodes to bytes
+   that decode to the same value, and the decoder retains no unknown bytes. *)
+Theorem stat_roundtrip :
+  forall s, wf_stat s ->
+    decode_stat (encode_stat s) = Some s /\ decode_stat_u (encode_stat s) = Some (s, []).
+Proof. exact stat_roundtrip_proof. Qed.
+
+(* ... the same for Packet (nil / present Stat, int32 type as sign-extended varint). *)
+Theorem packet_roundtrip :
+  forall p, wf_packet p ->
+    decode_packet (encode_packet p) = Some p /\ decode_packet_u (encode_packet p) = Some (p, [], []).
+Proof. exact packet_roundtrip_proof. Qed.
+
+(* SizeVT is the length of the encoding — for every value, well-formed or not. *)
+Theorem size_correct :
+  (forall s, len (encode_stat s) = size_stat s) /\ (forall p, len (encode_packet p) = size_packet p).
+Proof. exact size_correct_proof. Qed.
+
+(* Go emits the xattr map in random iteration order: every permutation of the entries decodes
+   to the same (canonical) value, with nothing retained, and has the same length. *)
+Theorem canonical_any_order :
+  (forall s xs, wf_stat s -> Permutation xs (st_xattrs s) ->
+     decode_stat (encode_stat_ord xs s) = Some s /\ decode_stat_u (encode_stat_ord xs s) = Some (s, []) /\
+     len (encode_stat_ord xs s) = size_stat s) /\
+  (forall p xs, wf_packet p -> Permutation xs (pxattrs p) ->
+     decode_packet (encode_packet_ord xs p) = Some p /\ decode_packet_u (encode_packet_ord xs p) = Some (p, [], []) /\
+     len (encode_packet_ord xs p) = size_packet p).
+Proof. exact canonical_any_order_proof. Qed.
+
+(* The varint primitive: every uint64 is read back, whatever follows it. *)
+Theorem varint_roundtrip :
+  forall n rest, n < two64 -> get_varint (put_varint n ++ rest) = Some (n, rest).
+Proof. exact get_put_varint. Qed.
+
+(* ---- framing -------------------------------------------------------------------------- *)
+
+(* Any sequence of sendable packets (any number, any sizes below 2^32 — hence also larger than
+   the 32 KiB pooled buffer —, empty packets included) written by SendMsg is read back by
+   repeated RecvMsg identical and in order and then ends cleanly (no trailing error item),
+   for EVERY way [chunks] in which the underlying reader splits the byte stream (1-byte
+   reads, reads returning 0 bytes, reads spanning several frames). *)
+Theorem recv_all_fragmentation :
+  forall msgs chunks, Forall sendable msgs ->
+    concat chunks = concat (map send_msg msgs) ->
+    recv_msgs chunks = map Some msgs.
+Proof. exact FramingP.recv_all_fragmentation. Qed.
+
+(* ... and for every map iteration order chosen independently for every frame. *)
+Theorem recv_all_fragmentation_any_order :
+  forall msgs frames chunks, Forall sendable msgs -> Forall2 frame_of msgs frames ->
+    concat chunks = concat frames -> recv_msgs chunks = map Some msgs.
+Proof. exact FramingP.recv_all_fragmentation_any_order. Qed.
+
+(* ---- buffer.go ------------------------------------------------------------------------- *)
+
+(* WriteTo of the chunked buffer emits exactly the records in allocation order, for records
+   of every size (below, at and above the chunk size). *)
+Theorem buffer_is_concat :
+  forall recs, write_to (alloc_all recs) = concat recs.
+Proof. exact FramingP.buffer_is_concat. Qed.
+
+(* No chunk ever holds more than its capacity. *)
+Theorem buffer_chunks_fit :
+  forall recs, chunks_fit (alloc_all recs).
+Proof. exact FramingP.buffer_chunks_fit. Qed.
+
+Print Assumptions stat_roundtrip.
+Print Assumptions packet_roundtrip.
+Print Assumptions size_correct.
+Print Assumptions canonical_any_order.
+Print Assumptions varint_roundtrip.
+Print Assumptions recv_all_fragmentation.
+Print Assumptions recv_all_fragmentation_any_order.
+Print Assumptions buffer_is_concat.
+Print Assumptions buffer_chunks_fit.
+
+(* ---- non-vacuity ---------------------------------------------------------------------- *)
+
+(* a Stat with a non-UTF-8 name, max uint32s, size = int64(-1), mtime = max int64,
+   devmajor = min int64, and two xattrs (one with an empty value) *)
+Definition ex_stat : stat :=
+  {| st_path := [100; 105; 114; 47; 102; 255];
+     st_mode := 4294967295; st_uid := 4294967295; st_gid := 0;
+     st_size := 18446744073709551615;
+     st_mtime := 9223372036854775807;
+     st_linkname := [];
+     st_devmajor := 9223372036854775808; st_devminor := 1;
+     st_xattrs := [([117; 115; 101; 114; 46; 97], [1; 2; 3]); ([117; 115; 101; 114; 46; 98], [])] |}.
+
+Example ex_stat_roundtrips :
+  wf_stat ex_stat /\ decode_stat (encode_stat ex_stat) = Some ex_stat /\
+  len (encode_stat ex_stat) = 81 /\ size_stat ex_stat = 81.
+Proof. vm_compute. repeat split; reflexivity. Qed.
+
+(* the other map order gives different bytes and the same value *)
+Example ex_stat_other_order :
+  bytes_eqb (encode_stat_ord (rev (st_xattrs ex_stat)) ex_stat) (encode_stat ex_stat) = false /\
+  decode_stat (encode_stat_ord (rev (st_xattrs ex_stat)) ex_stat) = Some ex_stat.
+Proof. vm_compute. split; reflexivity. Qed.
+
+(* negative enum value (int32 -1), nested Stat, payload *)
+Definition ex_packet : packet :=
+  {| ptype := 4294967295; pstat := Some ex_stat; pid := 4294967295; pdata := [0; 255; 128] |}.
+Example ex_packet_roundtrips :
+  wf_packet ex_packet /\ decode_packet (encode_packet ex_packet) = Some ex_packet /\
+  len (encode_packet ex_packet) = size_packet ex_packet.
+Proof. vm_compute. repeat split; reflexivity. Qed.
+
+(* the decoder is not the identity on garbage: errors are reported, unknown fields are kept,
+   repeated scalars are last-wins *)
+Example ex_decoder_discriminates :
+  decode_stat [10; 5; 97] = None /\                                  (* length beyond the input *)
+  decode_stat [12] = None /\                                         (* end-group *)
+  decode_stat_u [16; 1; 16; 2; 125; 0; 0; 0; 0] =                     (* mode twice + fixed32 field 15 *)
+    Some (set_mode empty_stat 2, [125; 0; 0; 0; 0]).
+Proof. vm_compute. repeat split; reflexivity. Qed.
+
+(* a concrete stream: packet, empty packet (zero-length frame), packet; read one byte at a
+   time with a zero-byte read before every byte *)
+Definition ex_msgs : list packet :=
+  [ex_packet; empty_packet; {| ptype := 2; pstat := None; pid := 7; pdata := [1; 2; 3; 4; 5] |}].
+Definition ex_stream : bytes := concat (map send_msg ex_msgs).
+Example ex_fragmentation_1byte :
+  Forall sendable ex_msgs /\
+  recv_msgs (flat_map (fun b => [[]; [b]]) ex_stream) = map Some ex_msgs /\
+  recv_msgs [ex_stream] = map Some ex_msgs.
+Proof.
+  split; [repeat constructor|]. vm_compute. split; reflexivity.
+Qed.
+
+(* a truncated stream ends with an error item, never with a wrong packet *)
+Example ex_truncated :
+  recv_msgs [firstn 20 ex_stream] = [None] /\
+  recv_msgs [firstn 3 ex_stream] = [None] /\
+  recv_msgs [firstn 109 ex_stream; firstn 2 (skipn 109 ex_stream)] = [Some ex_packet; None].
+Proof. vm_compute. repeat split; reflexivity. Qed.
+
+(* a packet larger than the 32 KiB pooled buffer, cut at the pool size *)
+Definition ex_big : packet :=
+  {| ptype := 2; pstat := None; pid := 1; pdata := repeat 7 (N.to_nat 40000) |}.
+Example ex_big_packet :
+  32768 <? size_packet ex_big = true /\
+  (let s := send_msg ex_big ++ send_msg empty_packet in
+   match recv_msgs [firstn (N.to_nat 32768) s; skipn (N.to_nat 32768) s] with
+   | [Some p; Some q] =>
+     (ptype p =? 2) && (pid p =? 1) && bytes_eqb (pdata p) (pdata ex_big) &&
+     match pstat p with None => true | Some _ => false end &&
+     (ptype q =? 0) && (pid q =? 0) && bytes_eqb (pdata q) [] &&
+     match pstat q with None => true | Some _ => false end
+   | _ => false
+   end) = true.
+Proof. vm_compute. split; reflexivity. Qed.
+
+(* buffer: roll-over, a record above the chunk size, exact fill *)
+Example ex_buffer :
+  let recs := [repeat 1 (N.to_nat 32767); [2]; [3]; repeat 4 (N.to_nat 40000); []; [5]] in
+  chunk_shape (alloc_all recs) = [(32768, 32768); (1, 32768); (40000, 40000); (1, 32768)] /\
+  bytes_eqb (write_to (alloc_all recs)) (concat recs) = true.
+Proof. vm_compute. split; reflexivity. Qed.
+
+(* ---- source-derived obligation (regenerated from /repo on every run): field numbers and
+        wire types of the generated code (types/*.pb.go struct tags) are the tag bytes the
+        model encoder writes, in this order; the chunk size of buffer.go ---- *)
+Definition tags_of (fields : list (N * N * list N)) : list N :=
+  map (fun x => fst (fst x) * 8 + snd (fst x)) fields.
+Definition with_tags (tags : list N) (payloads : list bytes) : bytes :=
+  concat (map (fun tp => fst tp :: snd tp) (combine tags payloads)).
+Definition ones_stat : stat :=
+  {| st_path := [97]; st_mode := 1; st_uid := 1; st_gid := 1; st_size := 1; st_mtime := 1;
+     st_linkname := [97]; st_devmajor := 1; st_devminor := 1; st_xattrs := [([107], [118])] |}.
+Example from_source_wire_tags :
+  encode_stat ones_stat =
+    with_tags (tags_of FromSource.stat_pb_fields)
+      [[1; 97]; [1]; [1]; [1]; [1]; [1]; [1; 97]; [1]; [1]; [6; 10; 1; 107; 18; 1; 118]] /\
+  encode_packet {| ptype := 1; pstat := Some empty_stat; pid := 1; pdata := [97] |} =
+    with_tags (tags_of FromSource.packet_pb_fields) [[1]; [0]; [1]; [1; 97]] /\
+  FromSource.buffer_chunk_size = chunk_size.
+Proof. vm_compute. repeat split; reflexivity. Qed.
